@@ -84,8 +84,28 @@ def strip_numbers(v):
     return enc(v)
 
 
+def _earlier_documents() -> None:
+    """what happened earlier in the process must not matter: documents read before had their options changed in place
+    (the documented way to set a namespace / root tag for writing) and were written"""
+    from dictIO import DictWriter, SDict, XmlParser
+    try:
+        for text in ("<settings><a>1</a></settings>", "<m xmlns='urn:earlier'><b>2</b></m>"):
+            d = XmlParser().parse_string(text, SDict())
+            opts = d["_xmlOpts"]
+            opts["_nameSpaces"]["None"] = "urn:example:changed"
+            opts["_nameSpaces"]["q"] = "urn:example:q"
+            opts["_rootAttributes"]["stamp"] = "1"
+            opts["_rootTag"] = "changed"
+            with impl.scratch() as td:
+                DictWriter.write(d, td / "e.xml", mode="w")
+                DictWriter.write({"extra": 1}, td / "e.xml", mode="a")
+    except Exception:  # noqa: BLE001  -- the cases that follow are what is judged
+        pass
+
+
 def process(ctx: Ctx, cases: list[dict]) -> None:
     from dictIO import DictReader, DictWriter, SDict, XmlFormatter, XmlParser
+    _earlier_documents()
     reqs, idx = [], []
     for i, c in enumerate(cases):
         if c["kind"] == "doc":
